@@ -50,7 +50,7 @@ def run(ctx):
         ctx.report({"unchecked": "in-kernel evaluation of the correspondence", "detail": err},
                    {"kind": "coq_eval"}, failing_input=False)
         return
-    for i, code in bad:
+    for i, code in sorted(bad, key=lambda x: (x[1], x[0])):   # failing inputs (code 1) first
         j = jsons[i]
         ctx.report({"case": j, "verdict": {1: "round trip violates the membership specification",
                                            2: "observation differs from the Coq model"}[code]},
